@@ -41,11 +41,11 @@ STUB = ['uuid and identity-hash streams']
 ASSUMPTIONS = ['column names are ones every format accepts (the statement says so)', 'sampling, not proof']
 PROBES = ['csv', 'fits_table', 'votable', 'hdf5', 'gridded_fits', 'subset_export', 'empty_subset', 'full_subset', 'overwrite_existing',
           'fault_efbig', 'fault_missing_dir', 'fault_read_missing', 'fault_read_empty', 'fault_read_truncated', 'export_raised_loudly',
-          'reexport_after_update', 'byref_restart']
+          'reexport_after_update', 'byref_restart', 'chained_export']
 
 FORMATS = ['csv', 'fits_table', 'votable', 'hdf5', 'gridded_fits']
 EXT = {'csv': 'csv', 'fits_table': 'fits', 'votable': 'vot', 'hdf5': 'hdf5', 'gridded_fits': 'fits'}
-WEIGHTS = {'export': 8, 'upd': 2, 'set_state': 2, 'read_fault': 2, 'byref': 1}
+WEIGHTS = {'export': 8, 'upd': 2, 'set_state': 2, 'read_fault': 2, 'byref': 1, 'export_loaded': 2.5}
 NAMES = ['alpha', 'Beta', 'zeta', 'colA', 'x1', 'mag', 'id2', 'flux']
 
 
@@ -76,6 +76,8 @@ def generate(rng, cfg, guards):
         elif k == 'read_fault':
             if with_faults:
                 ops.append([k, rng.randrange(8), rng.pick(['missing', 'empty', 'truncated']), rng.randrange(1, 4000)])
+        elif k == 'export_loaded':
+            ops.append([k, rng.randrange(8), rng.pick(formats)])
         else:
             ops.append([k, rng.randrange(8), rng.chance(0.5)])
     return {'knobs': {'guards': list(guards), 'prop': PROP}, 'ops': ops}
@@ -178,6 +180,8 @@ def _execute(case, res, tmp):
             read_fault(w, res, op, exports, tmp)
         elif k == 'byref':
             byref(w, res, op, exports, tmp)
+        elif k == 'export_loaded':
+            export_loaded(w, res, op, exports, nfile, tmp)
 
 
 def expected_columns(d, subset, fmt):
@@ -201,7 +205,7 @@ def same_values(got, exp, kind):
         return False
     if kind == 'categorical' or exp.dtype.kind in 'US' or got.dtype.kind in 'USO':
         g = np.array([x.decode('ascii') if isinstance(x, bytes) else str(x) for x in got.reshape(-1)])
-        e = np.array([str(x) for x in exp.reshape(-1)])
+        e = np.array([x.decode('ascii') if isinstance(x, bytes) else str(x) for x in exp.reshape(-1)])
         return bool(np.all(g == e))
     g, e = got.astype(float), exp.astype(float)
     return bool(np.all((g == e) | (np.isnan(g) & np.isnan(e))))
@@ -336,6 +340,42 @@ def export(w, res, op, exports, nfile, updated, tmp):
     compare(res, loaded, cols, mask, fmt, is_table, 'export %s' % fmt, 'C19-hdf5-order' in w.guards)
     exports[:] = [e for e in exports if e['path'] != path]
     exports.append({'path': path, 'fmt': fmt, 'cols': cols, 'mask': mask, 'is_table': is_table, 'data': d})
+
+
+def export_loaded(w, res, op, exports, nfile, tmp):
+    """A dataset that was itself loaded from an exported file (e.g. big-endian FITS columns) is exported again, possibly
+    in another format, and must round-trip too."""
+    _, eh, fmt = op
+    if not exports:
+        return
+    e = exports[eh % len(exports)]
+    try:
+        loaded = as_list(load_for(e['fmt'], e['path']))
+    except Exception:
+        return
+    d = loaded[0]
+    if len(loaded) != 1 or not d.main_components:
+        return
+    is_table = d.ndim == 1
+    if fmt in ('csv', 'fits_table', 'votable') and not is_table:
+        return
+    if d.size == 0:
+        return
+    nfile[0] += 1
+    path = os.path.join(tmp, 'x%d.%s' % (nfile[0], EXT[fmt]))
+    cols, mask = expected_columns(d, None, fmt)
+    try:
+        exporter_for(fmt)(path, d)
+    except Exception as ex:
+        raise Violation('C19/export-raises/%s/%s' % (fmt, type(ex).__name__), 'export of a dataset loaded from %s: %s' % (e['fmt'], str(ex)[:300]))
+    try:
+        again = load_for(fmt, path)
+    except Exception as ex:
+        raise Violation('C19/reload-raises/%s/%s' % (fmt, type(ex).__name__), 'dataset loaded from %s, exported as %s: %s' % (e['fmt'], fmt, str(ex)[:300]))
+    res.probe('chained_export')
+    res.nontrivial = True
+    res.fp('chain', e['fmt'], fmt, d.ndim)
+    compare(res, again, cols, mask, fmt, is_table, 'export %s of data loaded from %s' % (fmt, e['fmt']), 'C19-hdf5-order' in w.guards)
 
 
 def read_fault(w, res, op, exports, tmp):
